@@ -1,3 +1,12 @@
 import GoRedisModel.Properties.C03
 open GoRedis
-#print axioms C03_placeholder
+#print axioms C03_loop_is_request_semantics
+#print axioms C03_one_reply_each
+#print axioms C03_replies_in_order
+#print axioms C03_reply_count
+#print axioms C03_reply_before_next
+#print axioms C03_quit_cuts_off
+#print axioms C03_quit_reply
+#print axioms C03_handler_error_usable
+#print axioms C03_handler_error_reply
+#print axioms C03_zadd_flags_terminate
